@@ -295,6 +295,8 @@ def loop_ladder(ctx, world, ev, m, forms, f, extra, site):
     outs = e2.run(f, [pt, n] + list(extra), [], world.static.fork())
     rets = session.rets(outs)
     entries = [c for (_, c) in e2.loop_entries]
+    if len(entries) == 1 and len(entries[0]) == 3:
+        return rtl_ladder(ctx, world, ev, forms, f, extra, site, label, e2, outs, pt, n)
     okshape = len(entries) == 1 and len(entries[0]) == 1
     acc_name = list(entries[0])[0] if okshape else None
     ctx.ob("G6", label + " accumulator", okshape, "one loop with one carried local (the accumulator %s)" % acc_name if okshape else
@@ -390,6 +392,70 @@ def loop_ladder(ctx, world, ev, m, forms, f, extra, site):
     ctx.ob("G6", label, ok,
            "Horner step: every iteration maps acc = k*P to (2k + digit)*P, the function returns the accumulator => f(P, n) = n*P for n >= 0" if ok else
            "iterative ladder is not double-and-add over the digits of n (digit-1 step: %s, digit-0 step: %s, other steps: %s, returns the accumulator/identity: %s)"
+           % (step1, step0, bad, exits), site)
+
+
+def rtl_ladder(ctx, world, ev, forms, f, extra, site, label, e2, outs, pt, n):
+    """Iterative double-and-add, right to left: result = identity, addend = P; while r != 0:
+    if r & 1: result += addend; addend = 2*addend; r >>= 1.  Invariant: result + r*addend = n*P.
+    With result = k*P, addend = m*P and r = 2r' + b it is kept exactly when every way round the loop
+    gives result' = (k + b*m)*P, addend' = 2m*P and r' = r >> 1 (b the low bit of r): checked on one
+    symbolic iteration; the loop ends when r = 0, where the invariant says result = n*P."""
+    carried = e2.loop_entries[0][1]
+    is_id = lambda v: isinstance(v, TupleV) and len(v.items) == 4 and v.items[0] == Const(0) and v.items[3] == Const(0) \
+        and v.items[1] == v.items[2] and isinstance(v.items[1], Const) and v.items[1].v % (2 ** 255 - 19) != 0
+    res = [k for k, v in carried.items() if is_id(v)]
+    add = [k for k, v in carried.items() if v == pt]
+    rem = [k for k, v in carried.items() if v == n]
+    okshape = len(res) == 1 and len(add) == 1 and len(rem) == 1
+    ctx.ob("G6", label + " accumulator", okshape, "the loop carries a result starting at the identity, an addend starting at P and the remaining scalar" if okshape else
+           "the loop carries %s: not (result = identity, addend = P, remaining scalar = n)" % sorted(carried), site)
+    if not okshape:
+        return
+    R, A, r = Sym("loop:" + res[0], None), Sym("loop:" + add[0], None), Sym("loop:" + rem[0], "int")
+
+    def lin(t):          # -> (coefficient of result, coefficient of addend)
+        if isinstance(t, Sym) and t.n == R.n:
+            return (1, 0)
+        if isinstance(t, Sym) and t.n == A.n:
+            return (0, 1)
+        c = gm.unproj(t)
+        if c is None:
+            return None
+        kind = forms.get(c.f[3:], {}).get("kind") if isinstance(c, App) and c.f.startswith("fn:") else None
+        if kind == "double" and len(c.args) == 1:
+            x = lin(c.args[0])
+            return None if x is None else (2 * x[0], 2 * x[1])
+        if kind in ("add-complete", "add-dedicated") and len(c.args) == 2:
+            x, y = lin(c.args[0]), lin(c.args[1])
+            return None if x is None or y is None else (x[0] + y[0], x[1] + y[1])
+        return None
+    nonzero = lambda conds, t, want: (t, want) in conds or (mk_app("NotEq", (t, Const(0))), want) in conds or \
+        (mk_app("Eq", (t, Const(0))), not want) in conds or (mk_app("Lt", (Const(0), t)), want) in conds
+    step1 = step0 = False
+    bad = []
+    for p in e2.continues:
+        conds = {(t, pol) for (t, pol, _) in p.st.pc}
+        lr, la, nr = lin(p.val["locals"].get(res[0])), lin(p.val["locals"].get(add[0])), p.val["locals"].get(rem[0])
+        odd = [o_ for o_ in (gm.odd_fact(t, pol, r) for (t, pol) in conds) if o_ is not None]
+        okr = nr in (mk_app("RShift", (r, Const(1))), mk_app("FloorDiv", (r, Const(2))))
+        if not (okr and la == (0, 2) and nonzero(conds, r, True) and len(set(odd)) == 1):
+            bad.append("result %s, addend %s, remaining %s" % (lr, la, show(nr, maxdepth=3) if nr is not None else None))
+        elif odd[0] and lr == (1, 1):
+            step1 = True
+        elif not odd[0] and lr == (1, 0):
+            step0 = True
+        else:
+            bad.append("low bit %s: result %s" % (odd[0], lr))
+    exits = []
+    for o in session.rets(outs):
+        conds = {(t, pol) for (t, pol, _) in o.state.pc}
+        v = o.value
+        exits.append((is_id(v) and nonzero(conds, n, False)) or (isinstance(v, Sym) and v.n == R.n and nonzero(conds, r, False)))
+    ok = step1 and step0 and not bad and bool(exits) and all(exits)
+    ctx.ob("G6", label, ok,
+           "invariant result + r*addend = n*P: every iteration gives result + (r & 1)*addend, 2*addend, r >> 1; the result is returned when r = 0 => f(P, n) = n*P for n >= 0" if ok else
+           "right-to-left ladder does not keep result + r*addend = n*P (low-bit-1 step: %s, low-bit-0 step: %s, other: %s, returns the result at r = 0: %s)"
            % (step1, step0, bad, exits), site)
 
 
